@@ -76,6 +76,7 @@ def make_machine(sh, found, steps_budget):
             self.env = Environment(env={'SUPP_LOG_LEVEL': '100', 'PYTHONPATH': core.REPO})
             self.mirror = supp_server.Server(None)
             self.ops = []
+            found['cur'] = self.ops
             self.configured = False
             self.faults = 0
             self.ok_after_fault = 0
@@ -125,7 +126,10 @@ def make_machine(sh, found, steps_budget):
             """the mirror gets a NEW Project built by the harness (not by Server.configure, which is under test)"""
             from supp.project import Project
             self.ops.append(('configure', _brief(cfg)))
-            got = self.env.configure(cfg)
+            try:
+                got = self.env.configure(cfg)
+            except Exception as e:
+                self.fail('outcome-mismatch:configure', 'configure raised %r on the client' % (e,))
             self.mirror.project = Project(list(cfg['sources']), dyn_modules=cfg.get('dyn_modules'))
             if got is not None:
                 self.fail('reply-differs:configure', 'configure returned %r' % (got,))
@@ -143,6 +147,18 @@ def make_machine(sh, found, steps_budget):
             if dyn is not None:
                 cfg['dyn_modules'] = dyn
             self.do_configure(cfg)
+
+        @rule(mod=st.sampled_from(['json', 'm2']))
+        def reconfigure_dyn_roundtrip(self, mod):
+            """touch a module, make it a dyn (runtime-imported) module with the SAME sources, touch it again, and back"""
+            src, pos = ('import json\njson.lo', (2, 7)) if mod == 'json' else ('import m2\nm2.Ba', (2, 5))
+            fn = os.path.join(self.root, 'buffer.py')
+            self.both('assist', src, pos, fn)
+            self.do_configure({'sources': [self.root], 'dyn_modules': [mod]})
+            self.both('assist', src, pos, fn)
+            self.both('location', src, pos, fn)
+            self.do_configure({'sources': [self.root]})
+            self.both('assist', src, pos, fn)
 
         @rule(i=st.integers(0, len(SNIPPETS) - 1), which=st.sampled_from(['assist', 'location']))
         def cursor(self, i, which):
@@ -222,7 +238,10 @@ def make_machine(sh, found, steps_budget):
         def kwargs_call(self):
             self.ops.append(('lint-kwargs', ''))
             want = self.mirror.lint('x = 1\n', os.path.join(self.root, 'buffer.py'), syntax_only=True)
-            got = self.env.lint('x = 1\n', os.path.join(self.root, 'buffer.py'), syntax_only=True)
+            try:
+                got = self.env.lint('x = 1\n', os.path.join(self.root, 'buffer.py'), syntax_only=True)
+            except Exception as e:
+                self.fail('outcome-mismatch:lint-kwargs', 'client raised %r' % (e,))
             if norm(want) != got:
                 self.fail('reply-differs:lint-kwargs', '%r vs %r' % (got, want))
 
@@ -269,6 +288,13 @@ def w_machine(job):
     except AssertionError:
         sig, ops, detail = found['f']
         sh.violation(sig, {'ops': ops}, detail)
+    except Exception as e:
+        if 'f' in found:
+            sig, ops, detail = found['f']
+            sh.violation(sig, {'ops': ops}, detail)
+        else:
+            # an exception nobody expected escaped from the client (e.g. a reply that cannot be decoded)
+            sh.violation('client-raised-unexpectedly:%s' % type(e).__name__, {'ops': [list(o) for o in found.get('cur', [])]}, repr(e))
     return sh.result()
 
 
